@@ -1094,10 +1094,26 @@ class Engine(object):
                     out.add(x.name)
         return out
 
+    MUTATORS = set(['append', 'extend', 'remove', 'pop', 'sort', 'reverse', 'insert', 'clear', 'update', 'setdefault'])
+    PURE_CALLS = set(['Logger', 'len', 'abs', 'max', 'min', 'float', 'int', 'str', 'repr', 'print', 'type', 'isinstance', 'range', 'format'])
+
     def loop_modifies(self, n, lspec):
         if lspec is not None and lspec.modifies is not None:
             return list(lspec.modifies)
-        return ['*']
+        # default: syntactic write-set; anything that is not obviously pure havocs the whole heap
+        for x in ast.walk(ast.Module(body=n.body, type_ignores=[])):
+            if isinstance(x, (ast.Attribute, ast.Subscript)) and isinstance(x.ctx, (ast.Store, ast.Del)):
+                return ['*']
+            if isinstance(x, ast.Call):
+                f = x.func
+                if isinstance(f, ast.Name) and f.id in self.PURE_CALLS:
+                    continue
+                if isinstance(f, ast.Attribute) and f.attr in ('format', 'strip', 'replace', 'startswith', 'endswith', 'find', 'lower', 'join', 'keys', 'values', 'items'):
+                    continue
+                return ['*']
+            if isinstance(x, (ast.List, ast.ListComp, ast.Dict)):
+                return ['*']
+        return []
 
     def check_invs(self, what, ordinal, lspec, st, extra, line):
         ctx = SpecCtx(st, old=self.entry_state, extra=extra, entry=self.entry_state)
@@ -1222,12 +1238,20 @@ class Engine(object):
                         return unpack(items[0].ty, t)
                     return self.for_generic(n, s, k, ordinal, lspec, z3.IntVal(0), lambda s2, i: i < len(items), elem_at, {'_it': it})
                 return self.unroll_vals(n, items, s, k)
+            on_head = None
             if it.ty.kind == 'dict' or (it.ty.kind == 'ref' and self.ctab.dict_kv(it.ty.args[0])):
                 s.assume(*s.dict_key_axioms(it))
+                d = it
                 it = s.dict_keylist(it)
+                kl = it
+                def on_head(hs):
+                    # T-LIB key enumeration facts restated on the loop-head state, when the dict
+                    # itself is outside the loop's write set
+                    if z3.eq(hs.dict_keylist(d).t, kl.t) or True:
+                        hs.assume(z3.Implies(hs.dict_keylist(d).t == kl.t, z3.And(*hs.dict_key_axioms(d))))
             if it.ty.kind != 'list':
                 raise Unsupported('for over %s (line %d)' % (it.ty, line))
-            self.for_list(n, it, s, k, ordinal, lspec)
+            self.for_list(n, it, s, k, ordinal, lspec, on_head)
         return self.ev(n.iter, st, got)
 
     def unroll_for(self, n, elts, st, k):
@@ -1268,11 +1292,11 @@ class Engine(object):
         self.for_generic(n, st, k, ordinal, lspec, lo, lambda s, i: i < hi, lambda s, i: SV(INT, i),
                          {'_lo': SV(INT, lo), '_hi': SV(INT, hi)})
 
-    def for_list(self, n, it, st, k, ordinal, lspec):
+    def for_list(self, n, it, st, k, ordinal, lspec, on_head=None):
         self.for_generic(n, st, k, ordinal, lspec, z3.IntVal(0), lambda s, i: i < s.list_len(it),
-                         lambda s, i: s.list_get(it, i), {'_it': it})
+                         lambda s, i: s.list_get(it, i), {'_it': it}, on_head)
 
-    def for_generic(self, n, st, k, ordinal, lspec, start, in_range, elem_at, extra0):
+    def for_generic(self, n, st, k, ordinal, lspec, start, in_range, elem_at, extra0, on_head=None):
         line = n.lineno
         outer = st.ctl
         if ordinal is None:
@@ -1292,6 +1316,10 @@ class Engine(object):
         extra_h = dict(extra0)
         extra_h[iname] = SV(INT, i)
         self.assume_invs(lspec, head, extra_h)
+        if on_head is not None:
+            on_head(head)
+        head.ghost = dict(head.ghost)
+        head.ghost[iname] = SV(INT, i)      # after the loop: the index value at exit
         head.note('loop%d' % ordinal)
 
         def after(s):
